@@ -59,6 +59,7 @@ FULL STATEMENT, NOT PROVED (and false as a deterministic statement):
 import MpcVerif.Proofs.Clmul
 import MpcVerif.Proofs.Kos
 import MpcVerif.Proofs.KosSet
+import MpcVerif.Proofs.KosBuf
 
 namespace Mpc
 open Mpc.Iknp Mpc.Clmul Mpc.Kos
@@ -140,6 +141,58 @@ satisfying `BaseOK`, and freshly initialised parties are in step. -/
 example (R0 R1 : Nat → Nat → Byte) (delta : Label) :
     BaseOK R0 R1 (fun i p => if labelBit delta i then R1 i p else R0 i p) delta ∧ InStep RecvSt.init SendSt.init :=
   ⟨fun _ _ _ => rfl, InStep.init⟩
+
+/-- `kos_complete` on caller-provided result buffers.  `Receive(b, result,
+true)` transposes into the CALLER's `result` and computes its checksum from
+that slice (Model/KosBuf.lean: `receiveKosAt`).  For EVERY content of `result`
+(a fresh slice, the slice of the previous call on the same pair, ones, random
+bytes) the receiver produces exactly the messages and labels of `receiveKos` —
+the function all theorems of this file are about — hence the honest call never
+aborts and its outputs are correlated. -/
+theorem C15_kos_complete_any_buffer (X : Label → Nat → Label) (R0 R1 SS : Nat → Nat → Byte) (delta : Label)
+    (hb : BaseOK R0 R1 SS delta) (rs : RecvSt) (ss : SendSt) (hs : InStep rs ss) (b : Array Bool)
+    (b0 b1 seed2 : Label) (result : Array Label) (hres : result.size = b.size) :
+    receiveKosAt Store.assign X R0 R1 rs b b0 b1 seed2 result = some (receiveKos X R0 R1 rs b b0 b1 seed2) ∧
+    ∃ ss' sent,
+      sendKos X SS delta ss b.size (receiveKos X R0 R1 rs b b0 b1 seed2).msgs
+          (receiveKos X R0 R1 rs b b0 b1 seed2).resp =
+        some { st := ss', labels := sent, restData := [], restLabels := [] } ∧
+      InStep (receiveKos X R0 R1 rs b b0 b1 seed2).st ss' ∧ sent.length = b.size ∧
+      ∀ i, i < b.size →
+        (receiveKos X R0 R1 rs b b0 b1 seed2).labels.getD i 0#128 =
+          sent.getD i 0#128 ^^^ (if b.getD i false then delta else 0#128) := by
+  refine ⟨receiveKosAt_assign X R0 R1 rs b b0 b1 seed2 result hres, ?_⟩
+  obtain ⟨ss', sent, h1, h2, h3, _, h5⟩ := kos_complete_call X R0 R1 SS delta hb rs ss hs b b0 b1 seed2
+  exact ⟨ss', sent, h1, h2, h3, h5⟩
+
+example : (#[BitVec.allOnes 128, 5#128] : Array Label).size = (#[true, false] : Array Bool).size := rfl
+
+/-- Honest executions never abort, as a statement about HISTORIES: any number
+of malicious-mode calls on one initialised pair, every call naming where its
+`result` slice comes from — a fresh allocation, or a slice at any offset of
+the receiver's long-lived array, as the earlier calls left it or overwritten
+with arbitrary content first.  Every call is accepted by the sender ("OT
+extension check failed" is not reached), consumes exactly the receiver's
+messages, and delivers `received_i = sent_i xor choice_i*Delta`. -/
+theorem C15_kos_history_never_aborts (X : Label → Nat → Label) (R0 R1 SS : Nat → Nat → Byte) (delta : Label)
+    (hb : BaseOK R0 R1 SS delta) (SL : Nat) (arena : Array Label) (har : arena.size = SL)
+    (cs : List KCall) (hwf : ∀ c ∈ cs, c.WF SL) :
+    ∃ outs, sessionK Store.assign X R0 R1 SS delta RecvSt.init SendSt.init arena cs = some outs ∧
+      outs.length = cs.length ∧
+      ∀ k (hk : k < cs.length) (hk' : k < outs.length), KSpec delta cs[k] outs[k] :=
+  sessionK_ok X R0 R1 SS delta hb SL cs _ _ arena InStep.init har hwf
+
+/-- Non-vacuity: two calls into the same slice, a third into a window of an
+array of ones. -/
+example : (zerosL 3).size = 3 ∧
+    ∀ c ∈ [KCall.mk #[true, false] 1#128 2#128 3#128 (.arena none 0 0),
+           KCall.mk #[false, true] 4#128 5#128 6#128 (.arena none 0 0),
+           KCall.mk #[true] 7#128 8#128 9#128 (.arena (some (mk 3 fun _ => BitVec.allOnes 128)) 2 0)], c.WF 3 := by
+  refine ⟨by simp [zerosL], ?_⟩
+  intro c hc
+  simp only [List.mem_cons, List.mem_nil_iff, or_false] at hc
+  rcases hc with rfl | rfl | rfl
+  all_goals simp [KCall.WF, BufSrc.WF]
 
 /-- `kos_accept_iff`: the exact acceptance condition.  The receiver runs
 honestly; in transit the error masks `E1` (chunks of the payload batch) and
